@@ -260,8 +260,44 @@ def broad(spec1, spec2):
     return out
 
 
+def contacts_run(c):
+    """per-contact data of ONE find_contact_surface call (used by the harness to decide whether a known finding
+    explains a failed 5 % comparison): bodies specs[a], specs[b] (optionally moved by g) after the preliminary calls
+    `pre` = [[i, j], ...] on the same objects."""
+    B = [make_body(sp, c.get("g")) for sp in c["specs"]]
+    for i, j in c.get("pre", []):
+        hc.contact_forces(B[i], B[j])
+    b1, b2 = B[c["pair"][0]], B[c["pair"][1]]
+    cs = hc.find_contact_surface(b1, b2)
+    w12, w21 = fo.accumulate_wrenches(cs, b1, b2)
+    n = len(cs.intersecting_tetrahedra1)
+    out = dict(inter=bool(cs.intersection), w12=L(w12), w21=L(w21), frame2world=L(cs.frame2world), com1=L(b1.com), com2=L(b2.com), contacts=[])
+    if n == 0:
+        return out
+    i1 = np.asarray(cs.intersecting_tetrahedra1, dtype=int)
+    i2 = np.asarray(cs.intersecting_tetrahedra2, dtype=int)
+    tp1, tp2 = b1.tetrahedra_points[i1], b2.tetrahedra_points[i2]
+    ep1, ep2 = b1.tetrahedra_potentials[i1], b2.tetrahedra_potentials[i2]
+    X1, X2 = hc.barycentric_transforms(tp1), hc.barycentric_transforms(tp2)
+    g1 = np.einsum("ni,nij->nj", ep1 * b1.youngs_modulus, X1)[:, :3]
+    g2 = np.einsum("ni,nij->nj", ep2 * b2.youngs_modulus, X2)[:, :3]
+    den = np.linalg.norm(g1, axis=1) + np.linalg.norm(g2, axis=1)
+    den[den == 0.0] = 1.0
+    ratio = np.linalg.norm(g1 - g2, axis=1) / den
+    for k in range(n):
+        out["contacts"].append(dict(i=int(i1[k]), j=int(i2[k]), t1=L(tp1[k]), t2=L(tp2[k]), plane=L(cs.contact_planes[k]),
+                                    force=L(cs.contact_forces[k]), com=L(cs.contact_coms[k]), area=float(cs.contact_areas[k]),
+                                    ratio=float(ratio[k])))
+    return out
+
+
 def run_case(c):
     out = {}
+    if c.get("kind") == "contacts":
+        try:
+            return contacts_run(c)
+        except BaseException as e:  # noqa
+            return dict(exc=type(e).__name__, exc_msg=str(e)[:300], tb=traceback.format_exc()[-1500:])
     try:
         s1, s2, g = c["b1"], c["b2"], c["g"]
         max_rows = int(c.get("max_rows", 400))
